@@ -135,13 +135,33 @@ def run(F):
                         if isinstance(p, dict) and str(p.get("o", "")).startswith("num_dual::"):
                             parts.add(p["n"])
         n += 1
-        if "_henry_coefficients" in names and "derivative" in names and {"re", "eps"} <= parts:
+        if any("henry_coefficients" in x for x in names) and "derivative" in names and {"re", "eps"} <= parts:
             r.inst(iid, b.file_line(), "ok", parts=sorted(parts))
         else:
             r.inst(iid, b.file_line(), "violation", parts=sorted(parts))
             r.fail(iid, b.file_line(), "ideal_gas_enthalpy_of_adsorption: the temperature is no longer seeded with .derivative() for _henry_coefficients, "
                                        "or value / derivative parts of its result are no longer both read (found calls %s, parts %s)" % (
                                            sorted(set(x for x in names if x in ("_henry_coefficients", "derivative"))), sorted(parts)))
-    r.floor("implicit-derivative obligations", n, 8, exact=True)
+    # (e) segment -> component aggregation of an integral *assigns* one representative segment per component (all segments of a
+    #     molecule integrate to the same number of molecules); accumulating them multiplies Henry coefficients and dN/dmu of
+    #     heterosegmented molecules by the number of segments
+    for nm in ("integrate_segments", "integrate_reduced_segments"):
+        bs = [b for b in F.bodies if not b.is_closure() and b.path.startswith("feos_dft::profile::") and b.path.endswith("::" + nm)]
+        iid = "implicit|%s" % nm
+        if not bs:
+            r.inst(iid, "-", "violation")
+            r.fail(iid + "|missing", "-", "DFTProfile::%s not found" % nm)
+            continue
+        names = [str(callee(t)[2]) for _, _, t in _calls(bs[0], F)]
+        acc = [x for x in names if x in ("add_assign", "sum", "fold", "scaled_add", "sum_axis")]
+        n += 1
+        if acc:
+            r.inst(iid, bs[0].file_line(), "violation")
+            r.fail(iid, bs[0].file_line(),
+                   "DFTProfile::%s accumulates (%s) the segment integrals of a component instead of assigning one representative: quantities "
+                   "of heterosegmented molecules are multiplied by their number of segments" % (nm, ", ".join(sorted(set(acc)))))
+        else:
+            r.inst(iid, bs[0].file_line(), "ok")
+    r.floor("implicit-derivative obligations", n, 10, exact=True)
     r.exhaustive = True
     return [r]
